@@ -5,7 +5,6 @@ package nebula
 // Verification shim for C49 (component lifecyclenet): read-only probes of a real node's resources.
 
 import (
-	"io"
 	"net/netip"
 
 	"github.com/slackhq/nebula/overlay"
@@ -15,33 +14,18 @@ import (
 // VerifLifeCtxDone reports whether the service context has been cancelled.
 func VerifLifeCtxDone(c *Control) bool { return c.ctx.Err() != nil }
 
-// VerifLifeUDPClosed reports whether every underlay socket refuses writes (udp.TesterConn.WriteTo returns
-// io.ErrClosedPipe once Close ran). The probe packet is drained again when the socket is still open.
+// VerifLifeUDPClosed reports whether Close ran on every underlay socket.
 func VerifLifeUDPClosed(c *Control) bool {
-	all := true
 	for _, w := range c.f.writers {
-		tc := w.(*udp.TesterConn)
-		err := tc.WriteTo([]byte{0}, netip.MustParseAddrPort("192.0.2.1:9"))
-		if err != io.ErrClosedPipe {
-			all = false
-			if p := tc.Get(false); p != nil {
-				p.Release()
-			}
+		if !udp.VerifLifeClosed(w) {
+			return false
 		}
 	}
-	return all
+	return true
 }
 
-// VerifLifeTunClosed reports whether the tun device refuses writes.
-func VerifLifeTunClosed(c *Control) bool {
-	t := c.f.inside.(*overlay.TestTun)
-	_, err := t.Write([]byte{0})
-	if err == nil {
-		t.Get(false)
-		return false
-	}
-	return err == io.ErrClosedPipe
-}
+// VerifLifeTunClosed reports whether Close ran on the tun device.
+func VerifLifeTunClosed(c *Control) bool { return overlay.VerifLifeTunClosed(c.f.inside) }
 
 // VerifLifeInterfaceClosed is Interface.closed.
 func VerifLifeInterfaceClosed(c *Control) bool { return c.f.closed.Load() }
